@@ -51,6 +51,8 @@ package postprocessor
 //@ props C19 C15
 //@ nilsafe
 //@ loop 0 invariant result != nil
+//@ loop 0 step [a-failed-lookup-fails-the-step] imp(result_of(jsonpath.Get, 1) != nil, err != nil)
+//@ loop 0 step [earlier-failures-are-not-forgotten] imp(iter(err) != nil, err != nil)
 //@ ensures [unparsable-body-is-an-error] imp(calls(decoder.Decode) == 1 && result_of(decoder.Decode, 0) != nil, result1 != nil && result0 == nil)
 
 // A response that does not meet the expectation fails the step with an error (never a fault).
